@@ -41,6 +41,7 @@ func init() {
 			{ID: "C03-R9", Title: "no method call on the operand of a failed type assertion outside the recover boundary", Floor: 1, Run: failedAssertionOperandUse},
 			{ID: "C03-R10", Title: "lexer functions on the error-construction path index only under a length test", Floor: 1, Run: lexerIndexingGuarded},
 			{ID: "C03-R11", Title: "nil-tested fields are not dereferenced outside the test's cover", Floor: 10, Run: fieldNilBelief},
+			{ID: "C03-R12", Title: "parse results are nil-tested before they enter a node", Floor: 10, Run: parseResultsTestedBeforeUse},
 		},
 	})
 }
